@@ -361,7 +361,9 @@ def schema_strategy(max_types=5, rich=True):
             ]))
             mods[modnames[0]].append(g)
         # drop empty modules other than default
-        return {'modules': {m: ds for m, ds in mods.items() if ds or m == 'default'}}
+        out = {'modules': {m: ds for m, ds in mods.items() if ds or m == 'default'}}
+        _sanitize(out)
+        return out
     return schemas()
 
 
@@ -445,7 +447,8 @@ def mutate(schema, draw):
             'add_annotation', 'add_type', 'drop_type', 'change_expr', 'add_link',
             'change_errmessage', 'change_annotation_value', 'add_base', 'rebase_top',
             'change_errmessage', 'change_annotation_value', 'change_errmessage',
-            'rebase_top', 'rename_ptr', 'toggle_required']))
+            'rebase_top', 'rename_ptr', 'toggle_required', 'insert_two_bases',
+            'insert_two_bases']))
         if kind == 'add_prop':
             name = f'np{draw(st.integers(0, 3))}'
             if any(mm.get('name') == name for mm in d['members']):
@@ -634,6 +637,20 @@ def mutate(schema, draw):
                                       constraints=['exclusive'], annotations=[], linkprops=[]),
                                  dict(kind='index', text='.nm')]))
                     rd['bases'].append(qname(rm, nm))
+        elif kind == 'insert_two_bases':
+            # positional re-parenting: X before the first base, Y in the middle
+            if not d['bases'] or any(dd['name'] in ('MixX', 'MixY') for dd in s['modules'][m]):
+                continue
+            fam = _ptr_names(s, d)
+            if fam & {'mx', 'my', 'shared'}:
+                continue
+            for nm, pn, dv in (('MixX', 'mx', 'from X'), ('MixY', 'my', 'from Y')):
+                s['modules'][m].insert(0, dict(kind='type', name=nm, abstract=True, bases=[],
+                    members=[dict(kind='property', name=pn, target='str', card='single',
+                                  required=False, expr=None, default=f"'{dv}'",
+                                  constraints=[], annotations=[], linkprops=[])]))
+            nb = [qname(m, 'MixX')] + d['bases'][:1] + [qname(m, 'MixY')] + d['bases'][1:]
+            d['bases'] = nb
         elif kind == 'add_type':
             name = f'N{draw(st.integers(0, 2))}'
             if any(dd['name'] == name for dd in s['modules'][m]):
